@@ -184,7 +184,13 @@ class Check(PropertyCheck):
         res = []
         for j, m in impl.legal_actions(single):
             if not env.action_space.contains(np.array([j, m])):
-                res.append(("action-space", f"{what}: legal decision (job {j}, machine {m}) is not in {env.action_space}"))
+                key = "action-space"
+                if env is not single and single.action_space.contains(np.array([j, m])) and any(
+                        a > b for a, b in zip(single.action_space.nvec, env.action_space.nvec)):
+                    # the episode's own action space holds it; the multi env's, declared from the sample instance, is smaller
+                    key = "multi-env-space-undersized"
+                res.append((key, f"{what}: legal decision (job {j}, machine {m}) is not in {env.action_space}"
+                            + (f" declared from the sample instance (episode: {single.action_space})" if key != "action-space" else "")))
                 break
         return res
 
